@@ -2,6 +2,7 @@ package main
 
 import (
 	"bytes"
+	"encoding/hex"
 	"os"
 	"os/exec"
 	"strings"
@@ -48,14 +49,32 @@ func init() {
 			return res[0]
 		})
 	}
+	// (called by twelve goroutines at once: no harness bookkeeping in here — plain formatting, private buffers)
+	plain := func(b []byte, err error) string {
+		if err != nil {
+			return "err"
+		}
+		return "ok " + hx(b)
+	}
+	own := func(s string) []byte {
+		b, err := hex.DecodeString(s)
+		if err != nil && s != "-" {
+			panic(badArg{})
+		}
+		return b
+	}
 	cold("nasenc", func(a []string) string {
-		buf := aHex(a[5])
-		err := security.NASEncrypt(uint8(aU64(a[0])), a16(a[1]), uint32(aU64(a[2])), uint8(aU64(a[3])), uint8(aU64(a[4])), buf)
-		return okHex(buf, err)
+		buf := own(a[5])
+		var k [16]byte
+		copy(k[:], own(a[1]))
+		err := security.NASEncrypt(uint8(aU64(a[0])), k, uint32(aU64(a[2])), uint8(aU64(a[3])), uint8(aU64(a[4])), buf)
+		return plain(buf, err)
 	})
 	cold("nasmac", func(a []string) string {
-		m, err := security.NASMacCalculate(uint8(aU64(a[0])), a16(a[1]), uint32(aU64(a[2])), uint8(aU64(a[3])), uint8(aU64(a[4])), aHex(a[5]))
-		return okHex(m, err)
+		var k [16]byte
+		copy(k[:], own(a[1]))
+		m, err := security.NASMacCalculate(uint8(aU64(a[0])), k, uint32(aU64(a[2])), uint8(aU64(a[3])), uint8(aU64(a[4])), own(a[5]))
+		return plain(m, err)
 	})
 	registerOp("nasenc", func(a []string) string {
 		buf := aHex(a[5])
